@@ -118,6 +118,19 @@ def _programs(shard, seed):
     for si in range(a, b):
         seq = E.sequence_at(len(pts), n, si)
         X = [list(pts[i]) for i in seq]
+        if lk == "2d":
+            # the same data in other memory layouts, and after an interrupted earlier call
+            for extra in ({"layout": "F"}, {"layout": "T"}, {"crash": True}):
+                for model in ("UnsupervisedOPF", "KNNSupervisedOPF"):
+                    lab = [i % 2 for i in range(n)]
+                    p = {"model": model, "mode": "features", "X": X, "metric": metric, "labels": lab,
+                         "max_k": 2, "queries": qs[:4], "pad": pad, "positions": [0, 1]}
+                    p.update(extra)
+                    if model == "UnsupervisedOPF":
+                        p["min_k"] = 1
+                    else:
+                        p["val"] = {"X": X, "labels": lab}
+                    yield p
         for mx in range(1, n):
             for mn in range(1, mx + 1):
                 yield {"model": "UnsupervisedOPF", "mode": "features", "X": X, "metric": metric,
@@ -177,10 +190,42 @@ def run_case(prog, res=None):
         return viol(prog, "fit raised %r" % (ex,), "fit raised %s" % type(ex).__name__)
     n = len(prog["labels"])
     positions = prog.get("positions", list(range(n + 1)))
+    if prog.get("crash"):
+        # an earlier predict call, interrupted at each of its metric calls, precedes the call under test
+        from mc.faults import FaultyFn
+        orig_fn = m.distance_fn
+        q0 = prog["queries"][0]
+        acc0, _ = acceptable(m, q0, unsup)
+        cnt = FaultyFn(orig_fn)
+        m.distance_fn = cnt
+        try:
+            m.predict(np.array([prog["queries"][-1], prog["queries"][1]], dtype=float))
+        except Exception:
+            pass
+        m.distance_fn = orig_fn
+        for k in range(1, cnt.calls + 1):
+            m.distance_fn = FaultyFn(orig_fn, k)
+            try:
+                m.predict(np.array([prog["queries"][-1], prog["queries"][1]], dtype=float))
+            except Exception:
+                pass
+            m.distance_fn = orig_fn
+            out = m.predict(np.array([q0], dtype=float))
+            got = (int(out[0][-1]), int(out[1][-1])) if unsup else (int(out[-1]), 0)
+            if res is not None:
+                res.transitions += 2
+                res.evaluations += 1
+            if got not in acc0:
+                return viol(prog, "query %s received %s in the first call after a predict call interrupted at its "
+                            "metric call %d; the exhaustive rule allows only %s" % (q0, got, k, sorted(acc0)),
+                            "outcome depends on an earlier interrupted call")
     for q in prog["queries"]:
         acc, nch = acceptable(m, q, unsup)
         for pos in positions:
             batch = np.array([prog["pad"]] * pos + [q], dtype=float)
+            if prog.get("layout"):
+                from mc import layout as LY
+                batch = LY.apply(batch, prog["layout"])
             try:
                 out = m.predict(batch)
             except Horizon:
